@@ -178,6 +178,10 @@ func (c *Chain) InitChain(appState map[string]json.RawMessage, vals []abci.Valid
 	if err != nil {
 		return nil, err
 	}
+	// the engine knows the execution block the chain starts from
+	if blk, err := c.App.GoatKeeper.Block.Get(c.App.NewContextLegacy(false, cmtproto.Header{})); err == nil {
+		c.Eng.Known[common.BytesToHash(blk.BlockHash)] = goattypes.PayloadToExecutableData(&blk)
+	}
 	c.InitialHeight = initialHeight
 	c.Height = initialHeight - 1
 	c.uncommitted = true
